@@ -182,6 +182,7 @@ Record server := mkServer {
 Definition server0 : server := mkServer [] adapter0 [] [] [] [].
 
 Inductive pc :=
+| PNew                   (* add: RestoreSession / newServerSocket (a restored session joins its rooms here) *)
 | PMw (i : nat)          (* runMiddlewares: about to call middleware i (i = length: chain passed) *)
 | PDisable (r : rej)     (* add: chain returned an error -> socket.cleanup(): joinMu; s.join = no-op *)
 | PLeave (r : rej)       (* cleanup: s.leaveAll() *)
@@ -210,19 +211,29 @@ Record adm := mkAdm {
   t_pc    : pc;
   t_h     : hstate;        (* the goroutine started by doConnect *)
   t_jen   : bool;          (* s.join is the real function (false: replaced by the no-op) *)
-  t_js    : list jthread   (* Join goroutines started by middlewares *)
+  t_js    : list jthread;  (* Join goroutines started by middlewares *)
+  t_rec   : option (list N); (* Some rooms: connection state recovery is enabled and the adapter restored
+                                the session named by the CONNECT's pid/offset (same socket id, its own
+                                room and these named rooms); None: recovery off, no pid, or not restored *)
+  t_usemw : bool           (* ServerConnectionStateRecovery.UseMiddlewares *)
 }.
 
-Definition new_adm (s : sid) (c : N) (chain : list mwb) : adm := mkAdm s c chain (PMw 0) HNone true [].
+Definition new_adm_rec (s : sid) (c : N) (chain : list mwb) (rec : option (list N)) (usemw : bool) : adm :=
+  mkAdm s c chain PNew HNone true [] rec usemw.
+Definition new_adm (s : sid) (c : N) (chain : list mwb) : adm := new_adm_rec s c chain None false.
+
+Definition restored (t : adm) : bool := match t_rec t with Some _ => true | None => false end.
+(** Namespace.add: the chain is skipped exactly for a restored session when UseMiddlewares is off *)
+Definition skipped (t : adm) : bool := restored t && negb (t_usemw t).
 
 Definition with_pc (t : adm) (p : pc) : adm :=
-  mkAdm (t_sid t) (t_conn t) (t_chain t) p (t_h t) (t_jen t) (t_js t).
+  mkAdm (t_sid t) (t_conn t) (t_chain t) p (t_h t) (t_jen t) (t_js t) (t_rec t) (t_usemw t).
 Definition with_h (t : adm) (h : hstate) : adm :=
-  mkAdm (t_sid t) (t_conn t) (t_chain t) (t_pc t) h (t_jen t) (t_js t).
+  mkAdm (t_sid t) (t_conn t) (t_chain t) (t_pc t) h (t_jen t) (t_js t) (t_rec t) (t_usemw t).
 Definition with_jen (t : adm) (b : bool) : adm :=
-  mkAdm (t_sid t) (t_conn t) (t_chain t) (t_pc t) (t_h t) b (t_js t).
+  mkAdm (t_sid t) (t_conn t) (t_chain t) (t_pc t) (t_h t) b (t_js t) (t_rec t) (t_usemw t).
 Definition with_js (t : adm) (js : list jthread) : adm :=
-  mkAdm (t_sid t) (t_conn t) (t_chain t) (t_pc t) (t_h t) (t_jen t) js.
+  mkAdm (t_sid t) (t_conn t) (t_chain t) (t_pc t) (t_h t) (t_jen t) js (t_rec t) (t_usemw t).
 
 Definition is_hold (j : jthread) : bool := match snd j with JHold => true | _ => false end.
 (** joinMu of the socket is held by a Join goroutine *)
@@ -243,6 +254,14 @@ Definition nonempty {A} (l : list A) : bool := match l with [] => false | _ => t
 Definition step_main (t : adm) (s : server) : adm * server :=
   let sd := t_sid t in
   match t_pc t with
+  | PNew =>
+      match t_rec t with
+      | Some rooms =>
+          (* newServerSocket(previousSession): s.Join(previousSession.Rooms...) *)
+          (with_pc t (if t_usemw t then PMw 0 else PStore),
+           if t_jen t then with_adp (add_all sd (ROwn sd :: map RNamed rooms) (adp s)) s else s)
+      | None => (with_pc t (PMw 0), s)
+      end
   | PMw i =>
       match nth_error (t_chain t) i with
       | None => (with_pc t PStore, s)
@@ -331,7 +350,7 @@ Definition init (ts : list adm) : sys := (server0, ts).
 
 (** A thread run alone to completion (used to predict what the rig observes for one connection). *)
 Definition solo_sched (k : nat) : list (nat * who) :=
-  repeat (0%nat, WMain) (k + 10) ++ [(0%nat, WHandler)].
+  repeat (0%nat, WMain) (k + 11) ++ [(0%nat, WHandler)].
 
 (** * What the public API shows about one socket id *)
 Definition listed (s : server) (x : sid) : bool := mem N.eqb x (store s).
